@@ -23,6 +23,7 @@ import SSEPyVerif.Proofs.Schemes.SSE1
 import SSEPyVerif.Proofs.Schemes.Pi2Lev
 import SSEPyVerif.Proofs.Schemes.DP17
 import SSEPyVerif.Proofs.Schemes.ChainComplete
+import SSEPyVerif.Proofs.Schemes.CT14Complete
 namespace SSEPy.C01
 open SSEPy.Sch SSEPy.Sch.Chain
 
@@ -356,5 +357,25 @@ theorem PiPack.correct (raw : RawCfg) (cfg : ChainCfg) (hcfg : PiPack.cfgBuild r
   obtain ⟨D, t', hset⟩ := Chain.setup_complete cfg lv hl hr K db t (by rw [hkl]; exact hK) (fun p _ => hpack p.2) hs
   exact ⟨D, t', hset, fun w ids hm hv =>
     PiPack.search_stored raw cfg hcfg lv hl K db t t' D hset (fun L hL => hnc L t' hL) w ids hm hv⟩
+
+/-- CT14: `EDBSetup` NEVER RAISES.  For every accepted configuration, every key of `param_k` bytes and every database with at
+    least one keyword and no empty list, the only way the model's setup can fail is `.miss` — the recorded randomness ran
+    out or had the wrong kind, which `os.urandom` and `random` cannot do.  No IndexError: a chunk of `2^j` identifiers goes
+    to level `j ≤ ⌊log2 |DB(w)|⌋ ≤ t` and the index has `t + 1` levels (the list of exactly `2^t` postings that raised
+    before commit f819d98 is an instance); no ValueError from the PRFs or the cipher: the halves of `F(K, w)` have the
+    lengths `F'` and the cipher take as keys.  Together with `CT14.search_stored` this is the whole of C01 for CT14. -/
+theorem CT14.setup_never_raises (raw : RawCfg) (cfg : CT14Cfg) (hcfg : CT14.cfgBuild raw = .ok cfg) (lv : Leaves)
+    (hl : LeafLaws lv) (K : Bytes) (hK : (K.length : Int) = cfg.k) (db : DB) (t : Tape) (hne : db ≠ [])
+    (hlists : ∀ p ∈ db, 1 ≤ p.2.length) (e : Err) (h : CT14.setup cfg lv K db t = .error e) : e = .miss :=
+  CT14.setup_onlyMiss cfg lv hl (CT14.cfgBuild_usable cfg raw hcfg) K hK db t hne hlists e h
+
+/-- ANSS16: `EDBSetup` NEVER RAISES (accepted configuration with `param_k = param_k_prime`, which the scheme needs because it
+    uses one cipher object for both keys; every key; every database with a keyword and no empty list): the only failure left
+    is `.miss`.  No OverflowError: every list length fits the `⌈(t+1)/8⌉`-byte length field (`2^t < 256^⌈(t+1)/8⌉`; the width
+    repaired by 7b4d508); no IndexError: a list padded to `2^p` entries has `p ≤ t`. -/
+theorem ANSS16.setup_never_raises (raw : RawCfg) (cfg : ANSSCfg) (hcfg : ANSS16.cfgBuild raw = .ok cfg)
+    (hkk : cfg.kPrime = cfg.k) (lv : Leaves) (hl : LeafLaws lv) (K : Bytes) (db : DB) (t : Tape) (hne : db ≠ [])
+    (hlists : ∀ p ∈ db, 1 ≤ p.2.length) (e : Err) (h : ANSS16.setup cfg lv K db t = .error e) : e = .miss :=
+  ANSS16.setup_onlyMiss cfg lv hl (ANSS16.cfgBuild_usable cfg raw hcfg hkk) K db t hne hlists e h
 
 end SSEPy.C01
